@@ -17,7 +17,14 @@ func (ts Timestamp) Time() time.Time {
 
 // TimestampFromTime creates a Timestamp from a Time
 func TimestampFromTime(t time.Time) Timestamp {
-	return Timestamp(t.UnixNano())
+	ns := t.UnixNano()
+	if ns < 0 {
+		// Timestamps are unsigned. A time before 1970 (like the sweeper cutoff
+		// for a retention of more than ~56 years) must not wrap around to the
+		// far future, where every deletion marker would look expired.
+		return 0
+	}
+	return Timestamp(ns)
 }
 
 // TxnID is the LMDB transaction ID.
